@@ -348,6 +348,13 @@ impl Pair {
     self.a.inbox.extend(wire);
   }
 
+  /// Puts bytes produced on side B's behalf (e.g. a batch framed directly) on the way to A.
+  pub fn inject_to_a(&mut self, wire: Vec<u8>) {
+    if self.a.open {
+      self.enqueue_to_a(wire);
+    }
+  }
+
   /// Appends the MITM's trailing inserts (positions beyond the end of the original stream).
   pub fn flush_mitm_tail(&mut self) {
     if let Some(m) = &mut self.mitm_to_a {
@@ -424,7 +431,6 @@ impl Pair {
     let mut evts = Vec::new();
     absorb(out, &mut wire, &mut evts);
     src.sent.extend_from_slice(&wire);
-    src.apps.extend(evts.clone());
     if from_a {
       if self.b.open {
         self.b.inbox.extend(wire);
